@@ -38,6 +38,11 @@ var acceptGates = []GateSpec{
 			{ID: "state-root-setting", Doc: "StateRootInHeader setting matches the block", Alts: [][]string{{cfgSRInHeader, "pkg/core/block#StateRootEnabled"}}},
 			{ID: "header-linked", Doc: "header is either added through addHeaders (verified) or equals the already known header hash",
 				Alts: [][]string{{symBC + "addHeaders"}, {"pkg/core.(*HeaderHashes).GetHeaderHash", symHeaderHash}}},
+			// on *every* path, also the one through addHeaders: AddHeaders does not take addLock and addHeaders drops what
+			// is known by the time it looks, so "I have just handed the header to addHeaders" does not mean "the header
+			// recorded at this height is this block's" (finding 79)
+			{ID: "header-is-this-block", Doc: "the header hash recorded for the block's index equals the block's hash, whoever recorded it",
+				Alts: [][]string{{"pkg/core.(*HeaderHashes).GetHeaderHash", symHeaderHash}}},
 		},
 	},
 	{
